@@ -1410,6 +1410,14 @@ val is_name : bytes -> (bytes * bytes) -> bool
 
 val decode_msg : bytes -> message option
 
+val is_te : (bytes * bytes) -> bool
+
+val norm_field : (bytes * bytes) -> bytes * bytes
+
+val te_fields_st : (bytes * bytes) list -> (bytes * bytes) list
+
+val printable_st : (bytes * bytes) list -> bool
+
 type wstate =
 | WIdle
 | WLocked
